@@ -278,6 +278,15 @@ impl<'env> Executor<'env> {
                         "cannot recurse into a loop from a different block or template",
                     ))
                 }
+                // a loop object that left its loop (stored in a namespace) or that
+                // was captured by a macro closure cannot be re-entered from there:
+                // the loop body would run without the scopes it was compiled for.
+                if !state.ctx.is_active_loop($loop_object) {
+                    bail!(Error::new(
+                        ErrorKind::InvalidOperation,
+                        "cannot recurse into a loop that is not running in this context",
+                    ))
+                }
                 // the way this works is that we remember the next instruction
                 // as loop exit jump target.  Whenever a loop is pushed, it
                 // memorizes the value in `next_loop_iteration_jump` to jump
